@@ -153,7 +153,7 @@ func VerifC08Filter() {
 	zz.MonitorStart()
 	fr, err := r.Filter(opts)
 	zz.MonitorStop()
-	zz.Assert(zz.WriteCount() == 0, "Filter writes nothing into the source registry")
+	zz.Assert(zz.WriteCount() == 0, "[monitor] Filter writes nothing into the source registry")
 	zz.Assert(len(r.Names()) == nBefore, "the source registry keeps its lints")
 
 	// oracle
